@@ -335,6 +335,30 @@ def run_seq(ntype, d_on, d_off, events, cov, out, ctx):
                 if conn:
                     conn.query("SELECT")
                     conn.disconnect()
+            elif ev == "reconf":
+                # the documented Python-level way to (re)configure / enable interfaces, called in whatever power state N is in: while N is not ON
+                # it must leave every interface disabled (checked by the invariants below); values are the present ones, so nothing else changes
+                cov.inc("reconfigure_calls")
+                if st_before != ON:
+                    cov.inc("reconfigure_calls_while_not_on")
+                try:
+                    if ntype == "wireless-router":
+                        ap, ri = N.network_interface[1], N.network_interface[2]
+                        N.configure_wireless_access_point(ip_address=str(ap.ip_address), subnet_mask=str(ap.subnet_mask), frequency=ap.frequency)
+                        N.configure_router_interface(ip_address=str(ri.ip_address), subnet_mask=str(ri.subnet_mask))
+                    elif ntype in ("router", "firewall"):
+                        for pnum, itf in list(N.network_interface.items())[:2]:
+                            N.configure_port(port=pnum, ip_address=str(itf.ip_address), subnet_mask=str(itf.subnet_mask))
+                            N.enable_port(pnum)
+                    else:
+                        for itf in N.network_interface.values():
+                            itf.enable()
+                except Exception as e:
+                    mon.log[-1] = f"reconf:raised {type(e).__name__}"
+                    cov.inc("reconfigure_calls_raised")
+                if st_before == ON:
+                    # administratively disabled interfaces were switched on by this: the come-back snapshot is taken at the next shutdown anyway
+                    pass
             elif ev == "emit":
                 if st_before != ON:
                     cov.inc("traffic_ops_while_N_not_on")
@@ -405,7 +429,7 @@ class Check:
                     specs.append({"name": f"exh-{nt}-{a}{b}-{first}", "kind": "exh", "ntype": nt, "d_on": a, "d_off": b,
                                   "depth": depth, "first": first})
         for nt in NODE_TYPES:
-            for s in range(2 if tier == "quick" else 8):
+            for s in range(3 if tier == "quick" else 8):
                 specs.append({"name": f"rand-{nt}-{seed * 100 + s}", "kind": "rand", "ntype": nt, "seed": seed * 100 + s,
                               "n": 60 if tier == "quick" else 250, "len": 14})
         return specs
@@ -438,7 +462,7 @@ class Check:
             rnd = random.Random(spec["seed"])
             for _ in range(spec["n"]):
                 a, b = rnd.choice([0, 1, 2, 3]), rnd.choice([0, 1, 2, 3])
-                evs = [rnd.choice(EVENTS + ["tick", "tick", "shutdown", "reset"]) for _ in range(spec["len"])]
+                evs = [rnd.choice(EVENTS + ["tick", "tick", "shutdown", "reset", "reconf", "reconf"]) for _ in range(spec["len"])]
                 one(spec["ntype"], a, b, evs)
                 if len(out) >= 4:
                     break
